@@ -34,8 +34,9 @@ def schema_xsd(ns):
             '<xs:element name="note" type="xs:string" minOccurs="0"/></xs:sequence>'
             '<xs:attribute name="id" type="xs:NCName" use="required"/><xs:attribute name="level" type="xs:int"/>'
             '</xs:complexType>'
+            '<xs:element name="section" type="%ssectionType"/>'
             '<xs:element name="root"><xs:complexType><xs:sequence><xs:element name="section" type="%ssectionType" '
-            'maxOccurs="unbounded"/></xs:sequence></xs:complexType></xs:element></xs:schema>' % (tns, p, p, p))
+            'maxOccurs="unbounded"/></xs:sequence></xs:complexType></xs:element></xs:schema>' % (tns, p, p, p, p))
 
 
 def gen_doc(rng, depth=0):
@@ -131,8 +132,13 @@ def subject(case):
     if case['parser'] == 'lxml':
         import lxml.etree as LE
         src = LE.fromstring(xml.encode('utf-8'))
+    elif case.get('sub') is not None:
+        import xml.etree.ElementTree as ET
+        src = ET.fromstring(xml)
     else:
         src = xml
+    if case.get('sub') is not None:
+        src = src[case['sub']]      # validate an inner element of a larger parsed document on its own
     try:
         errs = list(s.iter_errors(src))
     except Exception as e:  # noqa
@@ -158,7 +164,11 @@ def subject(case):
                     stack.append((a + (i,), c))
         r['addr'] = addr
         try:
-            sel = elementpath.select(root, e.path, namespaces=e.namespaces or {})
+            xp, nsmap = e.path, dict(e.namespaces or {})
+            if '{' in xp:      # expanded names (a tree without prefix information): spell them with a prefix for XPath
+                xp = xp.replace('{%s}' % NS, 'zz:')
+                nsmap['zz'] = NS
+            sel = elementpath.select(root, xp, namespaces=nsmap)
             r['selected'] = len(sel)
             r['selects_elem'] = len(sel) == 1 and sel[0] is elem
         except Exception as ex:  # noqa
@@ -213,18 +223,20 @@ def evaluate(ctx, cases):
                 problems.append('error path %s selects %s node(s), not exactly the error element (%s)'
                                 % (e['path'], e['selected'], e['reason']))
             m = model.get((ci, k))
-            if m is not None:
+            if m is not None and c.get('sub') is None:
                 steps = m[1] if isinstance(m, tuple) and m[0] == 'Some' else m
                 want = path_string(steps, c['ns'])
                 if want != e['path']:
                     problems.append('error path %s, the model builds %s for the same node' % (e['path'], want))
-            if D is not None and e.get('addr') is not None:
+            if D is not None and e.get('addr') is not None and c.get('sub') is None:
                 a = e['addr']
                 inside = a[:len(D)] == D or D[:len(a)] == a
                 if not inside:
                     explor.append('an error is located at %s, outside the ancestor chain and subtree of the damaged node %s: %s'
                                   % (e['path'], D, e['reason']))
-        if c['fault'] == 'none':
+        if c.get('sub') is not None:
+            pass    # a sub-element validated on its own: only the path property is judged
+        elif c['fault'] == 'none':
             if not o['valid']:
                 problems.append('the undamaged document is reported invalid: %s' % [e['reason'] for e in o['errors']][:2])
         else:
@@ -258,6 +270,10 @@ def gen(ctx):
                 if parser == 'lxml' and ctx.quick() and rng.random() < 0.6:
                     continue
                 cases.append({'doc': d, 'ns': ns, 'version': version, 'parser': parser, 'fault': kind, 'damaged': list(a)})
+                if len(a) >= 2 and rng.random() < 0.3:
+                    # the first-level section that contains the damage, validated on its own
+                    cases.append({'doc': d, 'ns': ns, 'version': version, 'parser': parser, 'fault': kind,
+                                  'damaged': list(a), 'sub': a[0]})
     return cases
 
 
